@@ -139,18 +139,28 @@ def matrix_from_code(m, n, code):
     return A
 
 
+def shapes_of(k):
+    return [(m, k // m) for m in range(1, k + 1) if k % m == 0]
+
+
 def _work(payload):
-    m, n, lo, hi = payload
+    """All matrices with m*n = k and bit code in [lo, hi).  For every code the SAME flattened entries are
+    presented in every shape with m*n = k one after the other, in one process, so that a routine whose answer
+    depends on an earlier call with other arguments (a cache keyed too coarsely, a reused buffer) is exposed."""
+    k, lo, hi = payload
     fails = []
     nontrivial = 0
+    cnt = 0
     for code in range(lo, hi):
-        A = matrix_from_code(m, n, code)
-        msgs = judge_matrix(A)
-        if 0 < len(my_rref(rows_to_ints(A), n)[1]) < min(m, n) or (m and n and code):
-            nontrivial += 1
-        for msg in msgs[:2]:
-            fails.append((code, msg))
-    return hi - lo, nontrivial, fails
+        for (m, n) in shapes_of(k):
+            A = matrix_from_code(m, n, code)
+            cnt += 1
+            msgs = judge_matrix(A)
+            if code:
+                nontrivial += 1
+            for msg in msgs[:2]:
+                fails.append((m, n, code, msg))
+    return cnt, nontrivial, fails
 
 
 # ------------------------------------------------------------------------------ real shapes
@@ -191,17 +201,16 @@ def check(ctx):
     quick = ctx.tier == "quick"
     bound = 14 if quick else 18
     ctx.phase("all binary matrices with m*n <= %d" % bound)
-    shapes = [(m, n) for m in range(1, bound + 1) for n in range(1, bound + 1) if m * n <= bound]
     payloads = []
-    for m, n in shapes:
-        total = 1 << (m * n)
-        step = max(1, total // 32) if total > 4096 else total
-        payloads += [(m, n, lo, min(total, lo + step)) for lo in range(0, total, step)]
-    for (m, n, lo, hi), (cnt, nontriv, fails) in zip(payloads, core.pmap(_work, payloads)):
+    for k in range(1, bound + 1):
+        total = 1 << k
+        step = max(1, total // 64) if total > 4096 else total
+        payloads += [(k, lo, min(total, lo + step)) for lo in range(0, total, step)]
+    for (k, lo, hi), (cnt, nontriv, fails) in zip(payloads, core.pmap(_work, payloads)):
         ctx.count("evaluations", cnt)
         ctx.count("distinct_nontrivial", nontriv)
-        for code, msg in fails:
-            ctx.violation({"kind": "matrix", "m": m, "n": n, "rows": matrix_from_code(m, n, code).tolist()},
+        for m, n, code, msg in fails:
+            ctx.violation({"kind": "matrix", "m": m, "n": n, "rows": matrix_from_code(m, n, code).tolist(), "after_shapes": shapes_of(k)},
                           "matrix: %dx%d %s: %s" % (m, n, matrix_from_code(m, n, code).tolist(), msg),
                           key=None)
     ctx.phase("degenerate shapes")
@@ -245,6 +254,10 @@ def check(ctx):
 
 def replay_matrix(body):
     A = np.array(body["rows"], dtype=np.dtype(body.get("dtype", "int8"))).reshape(body["m"], body["n"])
+    for (m, n) in body.get("after_shapes", []):
+        if (m, n) == (body["m"], body["n"]):
+            break
+        judge_matrix(A.reshape(m, n).copy(), brute=False)      # the calls that preceded this one in the exploration
     msgs = judge_matrix(A, brute=(body["m"] * body["n"] <= 20))
     return "; ".join(msgs) if msgs else None
 
